@@ -38,8 +38,9 @@ Definition c05_check (c : c05case) : bool :=
         parse_raw on the value tree the printer walked (optionreflect.OptionField) *)
 Definition token_eqb (a b : token) : bool :=
   match a, b with
-  | TIdent x, TIdent y | TLit x, TLit y => bytes_eqb x y
-  | TColon, TColon | TLBrace, TLBrace | TRBrace, TRBrace | TLBrack, TLBrack | TRBrack, TRBrack | TComma, TComma => true
+  | TIdent x, TIdent y | TLit x, TLit y | TDetached x, TDetached y | TLeading x, TLeading y => bytes_eqb x y
+  | TColon, TColon | TLBrace, TLBrace | TRBrace, TRBrace | TLBrack, TLBrack | TRBrack, TRBrack | TComma, TComma
+  | TSemi, TSemi | TEq, TEq | TLParen, TLParen | TRParen, TRParen | TLt, TLt | TGt, TGt | TDot, TDot => true
   | _, _ => false
   end.
 
